@@ -24,23 +24,39 @@ template <> struct printer<Custom> { static void print(std::ostream& os, const C
 template <> struct printer<CustomAndStream> { static void print(std::ostream& os, const CustomAndStream& c) { os << "printer:" << c.v; } };
 }
 
+struct Widget { int id; };
+namespace trompeloeil {
+// a user printer for a null-comparable type prints the pointee: it must never be handed a null
+template <> struct printer<std::unique_ptr<Widget>> { static void print(std::ostream& os, const std::unique_ptr<Widget>& w) { os << "widget#" << w->id; } };
+template <> struct printer<const Widget*> { static void print(std::ostream& os, const Widget* const& w) { os << "widget@" << w->id; } };
+}
 struct FatalRep {};
 static std::vector<std::string> g_reports, g_traces;
 struct Tr : trompeloeil::tracer { void trace(char const*, unsigned long, std::string const& c) override { g_traces.push_back(c); } };
 struct MM { MAKE_MOCK2(f, void(const char*, std::pair<int*, int>)); };
+struct MR {
+  MAKE_MOCK3(g, void(const std::pair<int, int>&, const std::tuple<int, char>&, const Custom&));
+  MAKE_MOCK2(h, void(const std::unique_ptr<Widget>&, std::pair<int, int>&&));
+};
 
-struct State { std::ios_base::fmtflags base, adj; char fill; int width; };
+struct State { std::ios_base::fmtflags base, adj; char fill; int width; std::ios_base::fmtflags extra; };
+// the 81 states of base x adjustment x fill x width, plus the other number-formatting flags a previous insertion (e.g. a user's
+// printer for an earlier argument of the same report) may have left behind: "default formatting" means those are off as well
 static std::vector<State> all_states() {
   std::vector<State> v;
-  for (auto b : {std::ios::dec, std::ios::oct, std::ios::hex}) for (auto a : {std::ios::left, std::ios::right, std::ios::internal}) for (char f : {' ', '*', '0'}) for (int w : {0, 3, 9}) v.push_back({b, a, f, w});
+  for (auto b : {std::ios::dec, std::ios::oct, std::ios::hex}) for (auto a : {std::ios::left, std::ios::right, std::ios::internal}) for (char f : {' ', '*', '0'}) for (int w : {0, 3, 9}) v.push_back({b, a, f, w, std::ios_base::fmtflags{}});
+  for (auto b : {std::ios::dec, std::ios::hex}) for (int w : {0, 9}) for (auto x : {std::ios::showbase | std::ios::uppercase, std::ios::showpos | std::ios::boolalpha, std::ios::showbase | std::ios::showpos | std::ios::uppercase | std::ios::boolalpha})
+    v.push_back({b, std::ios::right, '*', w, x});
   return v;
 }
 static const std::vector<State> STATES = all_states();
 static std::string state_str(const State& s) {
   std::ostringstream o; o << (s.base == std::ios::dec ? "dec" : s.base == std::ios::oct ? "oct" : "hex") << '/' << (s.adj == std::ios::left ? "left" : s.adj == std::ios::right ? "right" : "internal") << "/fill'" << s.fill << "'/w" << s.width;
+  if (s.extra & std::ios::showbase) o << "/showbase"; if (s.extra & std::ios::uppercase) o << "/uppercase"; if (s.extra & std::ios::showpos) o << "/showpos"; if (s.extra & std::ios::boolalpha) o << "/boolalpha";
   return o.str();
 }
-static void apply(std::ostream& os, const State& s) { os.setf(s.base, std::ios::basefield); os.setf(s.adj, std::ios::adjustfield); os.fill(s.fill); os.width(s.width); }
+static void apply(std::ostream& os, const State& s) { os.setf(s.base, std::ios::basefield); os.setf(s.adj, std::ios::adjustfield); os.setf(s.extra); os.fill(s.fill); os.width(s.width); }
+static bool extra_kept(std::ostream& os, const State& s) { const auto m = std::ios::showbase | std::ios::uppercase | std::ios::showpos | std::ios::boolalpha; return (os.flags() & m) == s.extra; }
 static std::string squeeze(const std::string& s) { std::string o; bool sp = false; for (char c : s) { if (c == ' ' || c == '\n') sp = true; else { if (sp && !o.empty()) o += ' '; sp = false; o += c; } } return o; }
 
 // directly streamable / hex-dumped leaf: default formatting whatever the state, state restored, next insertion unaffected
@@ -50,7 +66,7 @@ template <typename T> static void leaf(const std::string& what, const T& v, cons
     trompeloeil::print(os, v);
     std::string got = os.str();
     R.check("print(" + what + ")", state_str(s), modulo_space ? squeeze(got) : got, modulo_space ? squeeze(exp) : exp, "leaf");
-    bool restored = os.width() == s.width && os.fill() == s.fill && (os.flags() & std::ios::basefield) == s.base && (os.flags() & std::ios::adjustfield) == s.adj;
+    bool restored = os.width() == s.width && os.fill() == s.fill && (os.flags() & std::ios::basefield) == s.base && (os.flags() & std::ios::adjustfield) == s.adj && extra_kept(os, s);
     R.check("stream state after print(" + what + ")", state_str(s), std::string(restored ? "restored" : "changed"), std::string("restored"), "restore");
     std::ostringstream ref; apply(ref, s); ref << 200; os << 200;
     R.check("next insertion after print(" + what + ")", state_str(s), os.str().substr(got.size()), ref.str(), "restore");
@@ -59,12 +75,15 @@ template <typename T> static void leaf(const std::string& what, const T& v, cons
 // structures and nullptr: checked under the 27 states without a pending width (the library writes braces and the
 // literal with plain operator<< on the caller's stream, which consumes a pending width; the statement does not cover that)
 template <typename T> static void structural(const std::string& what, const T& v, const std::string& exp) {
+  // a user-provided printer<T> writes on the caller's stream itself: which formatting flags it honours is the user's business
+  const bool user_printer = what.find("Custom") != std::string::npos || what.find("Widget") != std::string::npos || what.find("printer<T>") != std::string::npos;
   for (auto& s : STATES) {
     if (s.width != 0) continue;
+    if (user_printer && s.extra != std::ios_base::fmtflags{}) continue;
     std::ostringstream os; apply(os, s);
     trompeloeil::print(os, v);
     R.check("print(" + what + ")", state_str(s), os.str(), exp, "struct");
-    bool restored = os.fill() == s.fill && (os.flags() & std::ios::basefield) == s.base && (os.flags() & std::ios::adjustfield) == s.adj;
+    bool restored = os.fill() == s.fill && (os.flags() & std::ios::basefield) == s.base && (os.flags() & std::ios::adjustfield) == s.adj && extra_kept(os, s);
     R.check("stream flags after print(" + what + ")", state_str(s), std::string(restored ? "restored" : "changed"), std::string("restored"), "restore");
   }
 }
@@ -96,6 +115,17 @@ int main(int argc, char** argv) {
   structural("const char* null", np, "nullptr"); structural("int* null", ip, "nullptr"); structural("unique_ptr null", up, "nullptr"); structural("shared_ptr null", sp, "nullptr");
   structural("std::string* null", strp, "nullptr"); structural("function pointer null", fp, "nullptr"); structural("nullptr_t", nullptr, "nullptr");
   structural("null-comparable streamable, null", NullCmp{true}, "nullptr"); structural("null-comparable opaque, null", PtrLike{nullptr}, "nullptr");
+  { std::unique_ptr<Widget> nw, w(new Widget{5}); const Widget* npw = nullptr; const Widget* pw = w.get();
+    structural("unique_ptr<Widget> with printer<T>, null", nw, "nullptr"); structural("unique_ptr<Widget> with printer<T>, non-null", w, "widget#5");
+    structural("const Widget* with printer<T>, null", npw, "nullptr"); structural("const Widget* with printer<T>, non-null", pw, "widget@5");
+    structural("pair<unique_ptr<Widget>, const Widget*> nulls", std::pair<std::unique_ptr<Widget>, const Widget*>(nullptr, nullptr), "{ nullptr, nullptr }");
+    std::vector<const Widget*> vw{pw, nullptr}; structural("vector<const Widget*> with null", vw, "{ widget@5, nullptr }"); }
+  // arguments are kept as reference wrappers (to const for const& parameters): printed like the value they refer to
+  { const std::pair<int, std::string> pr(4, "p"); const std::tuple<int, char> tp(1, 'c'); const Custom cu{6}; const std::vector<int> vi{1, 2}; int x = 255; const int cx = 255; Opaque<2> o; o.b[0] = 1; o.b[1] = 2;
+    structural("cref(pair<int,string>)", std::cref(pr), "{ 4, p }"); structural("cref(tuple<int,char>)", std::cref(tp), "{ 1, c }"); structural("cref(Custom)", std::cref(cu), "Custom<6>");
+    structural("cref(vector<int>)", std::cref(vi), "{ 1, 2 }"); leaf("ref(int 255)", std::ref(x), "255"); leaf("cref(const int 255)", std::cref(cx), "255");
+    leaf("cref(opaque 2 bytes)", std::cref(o), "2-byte object={ 0x01 0x02 }", true);
+    std::pair<int, std::string> mpr(5, "q"); structural("ref(pair<int,string>)", std::ref(mpr), "{ 5, q }"); }
   // pairs, tuples, collections, nested, with nulls and custom printers at every depth
   structural("pair<int,string>", std::make_pair(10, std::string("x")), "{ 10, x }");
   structural("pair<int*,const char*> nulls", std::pair<int*, const char*>(nullptr, nullptr), "{ nullptr, nullptr }");
@@ -139,6 +169,22 @@ int main(int argc, char** argv) {
     }
     std::string rep = g_reports.empty() ? "?" : g_reports.back();
     R.check("forbidden-call report of f(null char*, {null int*, 7})", "reporter", rep.substr(rep.find('\n') + 1), std::string("  param  _1 == nullptr\n  param  _2 == { nullptr, 7 }\n"), "report");
+    {
+      MR mr; g_traces.clear(); g_reports.clear();
+      { ALLOW_CALL(mr, g(trompeloeil::_, trompeloeil::_, trompeloeil::_)); mr.g(std::make_pair(1, 2), std::make_tuple(3, 'c'), Custom{4}); }
+      R.check("trace record of g(const pair&, const tuple&, const Custom&)", "tracer", g_traces.size() == 1 ? g_traces[0].substr(g_traces[0].find('\n') + 1) : std::string("?"), std::string("  param  _1 == { 1, 2 }\n  param  _2 == { 3, c }\n  param  _3 == Custom<4>\n"), "report");
+      try { mr.g(std::make_pair(1, 2), std::make_tuple(3, 'c'), Custom{4}); } catch (FatalRep&) {}
+      std::string nm = g_reports.empty() ? "?" : g_reports.back();
+      R.check("no-match report of g(const pair&, const tuple&, const Custom&)", "reporter", nm.substr(nm.find('\n') + 1), std::string("  param  _1 == { 1, 2 }\n  param  _2 == { 3, c }\n  param  _3 == Custom<4>\n"), "report");
+      g_traces.clear(); g_reports.clear();
+      { ALLOW_CALL(mr, h(trompeloeil::_, trompeloeil::_)); mr.h(std::unique_ptr<Widget>(), std::make_pair(7, 8)); mr.h(std::unique_ptr<Widget>(new Widget{3}), std::make_pair(7, 8)); }
+      R.check("trace record of h(null unique_ptr<Widget> with printer<T>, pair&&)", "tracer", g_traces.size() == 2 ? g_traces[0].substr(g_traces[0].find('\n') + 1) : std::string("?"), std::string("  param  _1 == nullptr\n  param  _2 == { 7, 8 }\n"), "report");
+      R.check("trace record of h(unique_ptr<Widget> with printer<T>, pair&&)", "tracer", g_traces.size() == 2 ? g_traces[1].substr(g_traces[1].find('\n') + 1) : std::string("?"), std::string("  param  _1 == widget#3\n  param  _2 == { 7, 8 }\n"), "report");
+      try { mr.h(std::unique_ptr<Widget>(), std::make_pair(7, 8)); } catch (FatalRep&) {}
+      nm = g_reports.empty() ? "?" : g_reports.back();
+      R.check("no-match report of h(null unique_ptr<Widget> with printer<T>, pair&&)", "reporter", nm.substr(nm.find('\n') + 1), std::string("  param  _1 == nullptr\n  param  _2 == { 7, 8 }\n"), "report");
+      g_traces.clear(); g_reports.clear();
+    }
     {
       REQUIRE_CALL(m, f(trompeloeil::eq<const char*>(nullptr), trompeloeil::_));
       try { m.f("x", std::pair<int*, int>(nullptr, 1)); } catch (FatalRep&) {}
